@@ -1,4 +1,6 @@
 import BeyondVerif.Model.RKF
+import BeyondVerif.Model.KNObjF
+import BeyondVerif.Model.KNIter
 import BeyondVerif.Drv.Util
 namespace BeyondVerif.Drv.C06
 open BeyondVerif BeyondVerif.Drv BeyondVerif.F BeyondVerif.F.KN
@@ -17,10 +19,93 @@ def tabToStr (tb : Tableau) : String :=
   let row (l : List Float) := joinWith "," (l.map fToStr)
   joinWith " " [joinWith ";" (tb.a.map row), row tb.b, row tb.c, match tb.bstar with | none => "none" | some bs => row bs]
 
+/-- operations of a `c06seq` history, one after the other: `sm <name>` | `ss <f>` | `st <f>` | `sb <k> <bodies…>` | `ab <body>` | `db` |
+`cp` | `mk <h> <y0..y5>` | `rb`.  `fuel` bounds the number of operations. -/
+def parseOps : Nat → List String → Option (List Op)
+  | 0, [] => some []
+  | 0, _ => none
+  | _ + 1, [] => some []
+  | f + 1, "sm" :: m :: rest => (parseOps f rest).map (Op.setMethod m :: ·)
+  | f + 1, "ss" :: x :: rest => do let h ← fOfStr? x; let r ← parseOps f rest; pure (Op.setStep h :: r)
+  | f + 1, "st" :: x :: rest => do let t ← fOfStr? x; let r ← parseOps f rest; pure (Op.setTol t :: r)
+  | f + 1, "sb" :: k :: rest => do
+    let k ← k.toNat?
+    let (bs, rest) ← parseBodies k rest
+    let r ← parseOps f rest
+    pure (Op.setBodies bs :: r)
+  | f + 1, "ab" :: rest => do
+    let (bs, rest) ← parseBodies 1 rest
+    let r ← parseOps f rest
+    match bs with
+    | [b] => pure (Op.addBody b :: r)
+    | _ => none
+  | f + 1, "db" :: rest => (parseOps f rest).map (Op.dropBody :: ·)
+  | f + 1, "cp" :: rest => (parseOps f rest).map (Op.copy :: ·)
+  | f + 1, "rb" :: rest => (parseOps f rest).map (Op.readButcher :: ·)
+  | f + 1, "mk" :: rest => do
+    let (fs, rest) ← takeFloats 7 rest
+    let r ← parseOps f rest
+    match fs with
+    | h :: y => pure (Op.makeStep y h :: r)
+    | _ => none
+  | _ + 1, _ => none
+
+/-- reply to one operation of a history; a `_make_step` reply carries the error estimates of its passes after ` | ` -/
+def outToStr (c : Cfg) (op : Op) : String :=
+  match c.out op with
+  | .quiet => "q"
+  | .keyError => "unknown-name"
+  | .indexError => "index-error"
+  | .tableau tb => tabToStr tb
+  | .stepped r =>
+    let errs := match op, butcher c.method with
+      | .makeStep y h, some tb => fsToStr (makeStepErrs (fun _ y => accel c.bodies y) tb c.step c.tol 0.0 y maxIter h)
+      | _, _ => ""
+    match r with
+    | some (h', y') => fsToStr (h' :: y') ++ " | " ++ errs
+    | none => "runtime-error | " ++ errs
+
+def seqToStrs : Cfg → List Op → List String
+  | _, [] => []
+  | c, op :: ops => outToStr c op :: seqToStrs (c.next op) ops
+
+def intsToStr (l : List Int) : String := joinWith "," (l.map toString)
+def optNatToStr : Option Nat → String
+  | none => "none"
+  | some n => toString n
+
 /-- `c06accel <k> <bodies…> <y0..y5>` → six floats (`_accel` with k point-mass bodies)
     `c06step <method> <maxStep> <h> <tol> <mu> <y0..y5>` → `h' y0..y5 | p_error of every pass` | `runtime-error | …` | `unknown-name` (`_make_step`, central body)
-    `c06tab <method>` → the tableau: rows of a separated by `;`, then b, c, b_star -/
+    `c06tab <method>` → the tableau: rows of a separated by `;`, then b, c, b_star
+    `c06seq <method> <step> <tol> <k> <bodies…> <operations…>` → the replies of a history on one object `KeplerNum(step, bodies, method=, tol=)`, separated by ` ; `
+    `c06iter <epoch> <start> <stop> <datesGiven> <stepGiven> <listening> <real steps…>` (µs; flags 0/1) →
+       `<pos dates|none> <main dates> <interp> <order pos> <order main> <calls>` | `fuel` (`KeplerNum._iter` bookkeeping) -/
 def handle : List String → Option String
+  | "c06seq" :: method :: rest => some <|
+    match takeFloats 2 rest with
+    | some ([step, tol], k :: rest) =>
+      match k.toNat? with
+      | none => "bad-op"
+      | some k =>
+        match parseBodies k rest with
+        | none => "bad-op"
+        | some (bodies, rest) =>
+          match parseOps rest.length rest with
+          | none => "bad-op"
+          | some ops => joinWith " ; " (seqToStrs (Cfg.init step bodies method tol) ops)
+    | _ => "bad-op"
+  | "c06iter" :: rest => some <|
+    match takeInts 6 rest with
+    | some ([epoch, start, stop, dg, sg, ls], rs) =>
+      match rs.mapM iOfStr? with
+      | none => "bad-op"
+      | some rs =>
+        match KNIter.iterTab epoch start stop (dg != 0) (sg != 0) (ls != 0) rs with
+        | none => "fuel"
+        | some t =>
+          joinWith " " [match t.pos with | none => "none" | some p => intsToStr p, intsToStr t.main, if t.interp then "1" else "0",
+            toString (KNIter.ephemOrder t.posOrderArg), toString (KNIter.ephemOrder t.orderArg), toString t.calls]
+    | _ => "bad-op"
   | "c06accel" :: k :: rest => some <|
     match k.toNat? with
     | none => "bad-op"
